@@ -1,6 +1,6 @@
 (* Proofs/ExtendsLazy.v — C09 for the lazy interpreter (both phases): a run only extends the graph
    and keeps every node's edge vector strictly ascending by sink (one edge per ordered pair). *)
-From TSG Require Import Model.Lazy Proofs.BaseFacts Proofs.Containers Proofs.StrictMeta Proofs.Extends Proofs.LazyMeta.
+From TSG Require Import Model.Lazy Proofs.BaseFacts Proofs.Containers Proofs.StrictMeta Proofs.Extends Proofs.LazyMeta Proofs.MonadFacts.
 From Coq Require Import Sorted.
 
 Definition graph_sorted (g : graph) : Prop := Forall (fun n => edges_wf (g_edges n)) g.
@@ -13,7 +13,7 @@ Lemma graph_update_sorted g i f : graph_sorted g -> (forall n, edges_wf (g_edges
 Proof. intros H Hf. apply list_update_Forall; assumption. Qed.
 
 Definition lext_ok {A} (m : M lstate A) : Prop :=
-  forall s a s', graph_sorted (l_graph s) -> m s = Ok (a, s') ->
+  forall s p a s' p', graph_sorted (l_graph s) -> m s p = Ok (a, s', p') ->
     graph_sorted (l_graph s') /\ graph_ext (l_graph s) (l_graph s').
 
 Definition call_extends_sorted (call : ident -> graph -> list value -> res (value * graph)) : Prop :=
@@ -25,35 +25,36 @@ Section ExtLazy.
   Variable fl : file.
   Variable cfg : config.
   Variable glob : globals.
-  Variable budget : option N.
   Variable regexes : list rx.
   Variable find : rx -> str -> option (list (option (N * N))).
   Variable call : ident -> graph -> list value -> res (value * graph).
   Hypothesis Hcall : call_extends_sorted call.
 
   Lemma lext_ret A (a : A) : lext_ok (ret a).
-  Proof. intros s a' s' Hwf H. inversion H; subst. split; [exact Hwf|apply graph_ext_refl]. Qed.
+  Proof. intros s p a' s' p' Hwf H. apply ret_ok in H as (_ & -> & _). split; [exact Hwf|apply graph_ext_refl]. Qed.
   Lemma lext_bind A B (m : M lstate A) (f : A -> M lstate B) : lext_ok m -> (forall a, lext_ok (f a)) -> lext_ok (bind m f).
   Proof.
-    intros Hm Hf s b s' Hwf H. unfold bind in H. destruct (m s) as [[a s1]| | |] eqn:E; try discriminate.
-    destruct (Hm _ _ _ Hwf E) as [W1 E1]. destruct (Hf a _ _ _ W1 H) as [W2 E2].
+    intros Hm Hf s p b s' p' Hwf H. apply bind_ok in H as (a & s1 & p1 & E & H).
+    destruct (Hm _ _ _ _ _ Hwf E) as [W1 E1]. destruct (Hf a _ _ _ _ _ W1 H) as [W2 E2].
     split; [exact W2|eapply graph_ext_trans; eauto].
   Qed.
-  Lemma lext_noresult A (m : M lstate A) : (forall s a s', m s <> Ok (a, s')) -> lext_ok m.
-  Proof. intros H s a s' _ E. exfalso. eapply H; eauto. Qed.
+  Lemma lext_noresult A (m : M lstate A) : (forall s p a s' p', m s p <> Ok (a, s', p')) -> lext_ok m.
+  Proof. intros H s p a s' p' _ E. exfalso. eapply H; eauto. Qed.
   Lemma lext_ctx A c (m : M lstate A) : lext_ok m -> lext_ok (ctx_wrap c m).
-  Proof.
-    intros Hm s a s' Hwf H. unfold ctx_wrap in H. destruct (m s) as [[a1 s1]| | |] eqn:E; try discriminate.
-    inversion H; subst. eapply Hm; eauto.
-  Qed.
+  Proof. intros Hm s p a s' p' Hwf H. apply ctx_wrap_ok in H. eapply Hm; eauto. Qed.
   Lemma lext_same_graph A (m : M lstate A) :
-    (forall s a s', m s = Ok (a, s') -> l_graph s' = l_graph s) -> lext_ok m.
-  Proof. intros H s a s' Hwf E. rewrite (H _ _ _ E). split; [exact Hwf|apply graph_ext_refl]. Qed.
+    (forall s p a s' p', m s p = Ok (a, s', p') -> l_graph s' = l_graph s) -> lext_ok m.
+  Proof. intros H s p a s' p' Hwf E. rewrite (H _ _ _ _ _ E). split; [exact Hwf|apply graph_ext_refl]. Qed.
+
+  Ltac inv_set H := unfold set_lgraph, upd in H; apply modify_ok in H as (-> & _); cbn [l_graph].
+  Ltac inv_get H := let s0 := fresh "s0" in let s1 := fresh "s1" in let p1 := fresh "p1" in let E := fresh "E" in
+    apply bind_ok in H as (s0 & s1 & p1 & E & H); apply get_ok in E as (-> & -> & ->).
 
   Lemma lext_add_node : lext_ok ladd_node.
   Proof.
-    intros s n s' Hwf H. unfold ladd_node, bind, get_state, set_lgraph, upd, ret, add_graph_node in H. cbn in H.
-    inversion H; subst. cbn [l_graph]. split.
+    intros s p n s' p' Hwf H. unfold ladd_node in H. inv_get H.
+    unfold add_graph_node in H. apply bind_ok in H as (u & s2 & p2 & E & H). apply ret_ok in H as (_ & -> & _). inv_set E.
+    split.
     - apply Forall_app. split; [exact Hwf|]. repeat constructor.
     - apply (proj1 (add_graph_node_ext (l_graph s))).
   Qed.
@@ -70,27 +71,27 @@ Section ExtLazy.
 
   Lemma lext_add_node_attr n k v : lext_ok (ladd_node_attr n k v).
   Proof.
-    intros s a s' Hwf H. unfold ladd_node_attr, bind, get_state in H. cbn beta iota in H.
+    intros s p a s' p' Hwf H. unfold ladd_node_attr in H. inv_get H.
     destruct (gnode_at (l_graph s) n) as [nd|] eqn:E; [|discriminate].
     destruct (attrs_add (g_attrs nd) k v) as [m' c] eqn:Ea. destruct c; [discriminate|].
-    unfold set_lgraph, upd in H. inversion H; subst. cbn [l_graph]. eapply node_attr_add_ok; eauto.
+    inv_set H. eapply node_attr_add_ok; eauto.
   Qed.
   Lemma lext_lattr_node_add n k v prev dbg : lext_ok (lattr_node_add n k v prev dbg).
   Proof.
-    intros s a s' Hwf H. unfold lattr_node_add, bind, get_state in H. cbn beta iota in H.
+    intros s p a s' p' Hwf H. unfold lattr_node_add in H. inv_get H.
     destruct (gnode_at (l_graph s) n) as [nd|] eqn:E; [|discriminate].
     destruct (attrs_add (g_attrs nd) k v) as [m' c] eqn:Ea. destruct c; [discriminate|].
-    unfold set_lgraph, upd in H. inversion H; subst. cbn [l_graph]. eapply node_attr_add_ok; eauto.
+    inv_set H. eapply node_attr_add_ok; eauto.
   Qed.
 
   Lemma lext_lattr_edge_add a b k v prev dbg : lext_ok (lattr_edge_add a b k v prev dbg).
   Proof.
-    intros s x s' Hwf H. unfold lattr_edge_add, bind, get_state in H. cbn beta iota in H.
+    intros s p x s' p' Hwf H. unfold lattr_edge_add in H. inv_get H.
     destruct (gnode_at (l_graph s) a) as [nd|] eqn:E; [|discriminate].
     pose proof (gnode_at_sorted _ _ _ Hwf E) as He.
     destruct (edges_get b (g_edges nd)) as [m|] eqn:E2; [|discriminate].
     pose proof (attrs_add_ext m k v) as Hx. destruct (attrs_add m k v) as [m' c]. cbn [fst snd] in Hx. destruct c; [discriminate|].
-    unfold set_lgraph, upd in H. inversion H; subst. cbn [l_graph]. split.
+    inv_set H. split.
     - apply graph_update_sorted; [exact Hwf|]. intros n0 _. cbn. unfold edges_wf. rewrite edges_set_sinks. exact He.
     - apply graph_update_ext. intros n0 Hn0. rewrite E in Hn0. inversion Hn0; subst. split; cbn; [apply attrs_ext_refl|].
       eapply edges_set_ext; eauto.
@@ -98,7 +99,7 @@ Section ExtLazy.
 
   Lemma lext_ledge_add a b ea : lext_ok (ledge_add a b ea).
   Proof.
-    intros s x s' Hwf H. unfold ledge_add, bind, get_state, graph_add_edge in H. cbn beta iota in H.
+    intros s p x s' p' Hwf H. unfold ledge_add in H. inv_get H. unfold graph_add_edge in H.
     destruct (gnode_at (l_graph s) a) as [nd|] eqn:E; [|discriminate].
     pose proof (gnode_at_sorted _ _ _ Hwf E) as He.
     pose proof (edges_add_spec b (g_edges nd) He) as S. pose proof (edges_add_ext b _ He) as Hx.
@@ -107,7 +108,7 @@ Section ExtLazy.
     { apply graph_update_sorted; [exact Hwf|]. intros n0 _. exact Hw. }
     assert (Hx1 : graph_ext (l_graph s) (graph_update (l_graph s) a (with_edges es))).
     { apply graph_update_ext. intros n0 Hn0. rewrite E in Hn0. inversion Hn0; subst. split; cbn; [apply attrs_ext_refl|exact Hx]. }
-    destruct isnew; unfold set_lgraph, upd in H; inversion H; subst; cbn [l_graph]; [|split; assumption].
+    destruct isnew; inv_set H; [|split; assumption].
     (* new edge: its (empty) attribute map is replaced by the statement's debug attributes *)
     assert (Eg : gnode_at (graph_update (l_graph s) a (with_edges es)) a = Some (with_edges es nd)).
     { unfold gnode_at, graph_update. rewrite nth_error_list_update, Nat.eqb_refl. unfold gnode_at in E. rewrite E. reflexivity. }
@@ -123,34 +124,31 @@ Section ExtLazy.
 
   Lemma lext_call f args : lext_ok (lcall_function call f args).
   Proof.
-    intros s v s' Hwf H. unfold lcall_function, bind, get_state in H. cbn beta iota in H.
+    intros s p v s' p' Hwf H. unfold lcall_function in H. inv_get H.
     destruct (call f (l_graph s) args) as [[v' g']| | |] eqn:E; try discriminate.
-    unfold set_lgraph, upd, ret in H. cbn in H. inversion H; subst. cbn [l_graph]. eapply Hcall; eauto.
+    apply bind_ok in H as (u & s2 & p2 & E2 & H). apply ret_ok in H as (_ & -> & _). inv_set E2. eapply Hcall; eauto.
   Qed.
 
-  Lemma lext_poll l : lext_ok (lpoll budget l).
-  Proof.
-    apply lext_same_graph. intros s a s' H. unfold lpoll in H. destruct (poll_step budget l (l_polls s)) as [p' c].
-    destruct c; [discriminate|]. inversion H; subst. reflexivity.
-  Qed.
+  Lemma lext_poll l : lext_ok (lpoll l).
+  Proof. apply lext_same_graph. intros s p a s' p' H. apply poll_ok in H as (-> & _). reflexivity. Qed.
 
-  Ltac same := apply lext_same_graph; intros s a s' H; unfold upd in H; inversion H; subst; reflexivity.
+  Ltac same := apply lext_same_graph; intros s p a s' p' H; unfold upd in H; apply modify_ok in H as (-> & _); reflexivity.
 
-  Theorem lexec_file_extends fuel ms : lext_ok (lexec_file t fl cfg glob budget regexes find call fuel ms).
+  Theorem lexec_file_extends fuel ms : lext_ok (lexec_file t fl cfg glob regexes find call fuel ms).
   Proof.
-    apply (Phi_lexec_file t fl cfg glob budget regexes find call (@lext_ok)).
+    apply (Phi_lexec_file t fl cfg glob regexes find call (@lext_ok)).
     - exact lext_ret.
     - exact lext_bind.
-    - intros A e _. apply lext_noresult. intros s a s'. discriminate.
-    - intros A c e _. apply lext_noresult. intros s a s'. discriminate.
-    - intros A p. apply lext_noresult. intros s a s'. discriminate.
-    - intros A. apply lext_noresult. intros s a s'. discriminate.
+    - intros A e _. apply lext_noresult. intros s p a s' p'. discriminate.
+    - intros A c e _. apply lext_noresult. intros s p a s' p'. discriminate.
+    - intros A x. apply lext_noresult. intros s p a s' p'. discriminate.
+    - intros A. apply lext_noresult. intros s p a s' p'. discriminate.
     - exact lext_ctx.
-    - same.
+    - apply lext_same_graph. intros s p a s' p' H. apply get_ok in H as (_ & -> & _). reflexivity.
     - intros l. unfold set_llocals. same.
     - intros l. unfold set_lstore. same.
     - intros l. unfold set_lscoped. same.
-    - intros st. unfold push_lstmt. apply lext_same_graph. intros s a s' H. unfold upd in H. destruct st; inversion H; subst; reflexivity.
+    - intros st. unfold push_lstmt. apply lext_same_graph. intros s p a s' p' H. unfold upd in H. apply modify_ok in H as (-> & _). destruct st; reflexivity.
     - intros l. unfold set_lparams. same.
     - intros l. unfold set_lprev. same.
     - exact lext_poll.
@@ -163,12 +161,12 @@ Section ExtLazy.
   Qed.
 End ExtLazy.
 
-Theorem run_lazy_extends_lemma {rx} t fl cfg supplied budget (regexes : list rx) find call fuel matches g0 s :
+Theorem run_lazy_extends_lemma {rx} t fl cfg supplied budget (regexes : list rx) find call fuel matches g0 s p :
   call_extends_sorted call -> graph_sorted g0 ->
-  run_lazy t fl cfg supplied budget regexes find call fuel matches g0 = Ok s ->
+  run_lazy t fl cfg supplied budget regexes find call fuel matches g0 = Ok (s, p) ->
   graph_sorted (l_graph s) /\ graph_ext g0 (l_graph s).
 Proof.
   intros Hc Hwf. unfold run_lazy. destruct (check_globals (f_globals fl) (globals_nested supplied)) as [glob| | |]; try discriminate.
-  destruct (lexec_file _ _ _ _ _ _ _ _ _ _ (linit g0)) as [[u s1]| | |] eqn:E; try discriminate.
-  intros H; inversion H; subst. exact (lexec_file_extends t fl cfg glob budget regexes find call Hc fuel _ (linit g0) u s Hwf E).
+  destruct (lexec_file _ _ _ _ _ _ _ _ _ (linit g0) (polls0 budget)) as [[[u s1] p1]| | |] eqn:E; try discriminate.
+  intros H; inversion H; subst. exact (lexec_file_extends t fl cfg glob regexes find call Hc fuel _ (linit g0) _ u s p Hwf E).
 Qed.
